@@ -219,6 +219,17 @@ func (r *txRunner) apply(op txOp) {
 		r.msg, r.wired = nil, 0
 		r.nmsg++
 	case "Send":
+		if op.Ctx == "cancelled" {
+			// SendPackage = QueuePackage + SendRemainingPackets; with a cancelled context it can only get
+			// as far as the queue step, so the message stays open (and unjudged) like after a failed Queue
+			pkg, enc := r.pkg(op)
+			r.msg = append(r.msg, enc...)
+			r.tr.Emit(Ev{"ev": "Queue", "n": len(enc), "ctx": cx, "typ": int(r.ch.CurrentHeaderType)})
+			err := r.ch.SendPackage(r.ctxFor(op), pkg)
+			r.wires()
+			r.tr.Emit(Ev{"ev": "QueueEnd", "st": errClass(err), "typ": int(r.ch.CurrentHeaderType)})
+			return
+		}
 		pkg, enc := r.pkg(op)
 		r.msg = append(r.msg, enc...)
 		r.tr.Emit(Ev{"ev": "Send", "n": len(enc), "ctx": cx, "typ": int(r.ch.CurrentHeaderType)})
@@ -441,6 +452,24 @@ func txMain(args []string) error {
 			if rng.Intn(12) == 0 { // C13: a send with a cancelled context writes nothing
 				ops = append(ops, txOp{Op: "Queue", N: total, Ctx: "cancelled"})
 				ops = append(ops, txOp{Op: "Flush"})
+				continue
+			}
+			if rng.Intn(10) == 0 {
+				// a flush given up with a cancelled context leaves nothing behind for the next message
+				for _, p := range splitLen(rng, total, 1+rng.Intn(2)) {
+					ops = append(ops, txOp{Op: "Queue", N: p})
+				}
+				ops = append(ops, txOp{Op: "Flush", Ctx: "cancelled"})
+				ops = txMessage(rng, ops, 1+rng.Intn(2*body), body, rng.Intn(4))
+				continue
+			}
+			if rng.Intn(16) == 0 {
+				ops = append(ops, txOp{Op: "Send", N: total, Ctx: "cancelled"})
+				ops = append(ops, txOp{Op: []string{"Flush", "Flush", "Send"}[rng.Intn(3)], N: 1 + rng.Intn(body), Ctx: []string{"", "cancelled"}[rng.Intn(2)]})
+				if ops[len(ops)-1].Op == "Send" && ops[len(ops)-1].Ctx == "cancelled" {
+					ops = append(ops, txOp{Op: "Flush"})
+				}
+				ops = txMessage(rng, ops, 1+rng.Intn(2*body), body, rng.Intn(4))
 				continue
 			}
 			ops = txMessage(rng, ops, total, body, rng.Intn(4))
